@@ -168,7 +168,7 @@ def dec(j, U):
     raise ValueError(j)
 
 
-SM_KINDS = ["none", "set", "wrap", "new", "newdrop"]
+SM_KINDS = ["none", "set", "wrap", "new", "newdrop", "extra"]
 
 
 def make_ser(kind, U):
@@ -181,6 +181,11 @@ def make_ser(kind, U):
     if kind == "wrap":
         def ser(node, data):
             data["data"] = [data["data"], enc(node.data, U)]
+        return ser
+    if kind == "extra":   # the style of the pinned suite: leave "data", add entries, return the dict
+        def ser(node, data):
+            data["t"] = enc(node.data, U)
+            return data
         return ser
     if kind in ("new", "newdrop"):
         def ser(node, data):
@@ -197,12 +202,21 @@ def payload(kind, v):
     return v[1] if kind == "wrap" else v
 
 
+def decode_item(kind, item, U):
+    """the data object the deserialisation step builds for an item dict"""
+    if kind == "none":
+        return item["data"]
+    if kind == "extra":
+        return dec(item["t"], U)
+    return dec(payload(kind, item["data"]), U)
+
+
 def make_deser(kind, U):
     if kind == "none":
         return None
 
     def deser(parent, item):
-        return dec(payload(kind, item["data"]), U)
+        return decode_item(kind, item, U)
     return deser
 
 
@@ -219,6 +233,8 @@ def coq_smd(kind, U, tree_nodes):
         return f"(SMset {tbl})"
     if kind == "wrap":
         return f"(SMwrap {tbl})"
+    if kind == "extra":
+        return f"(SMextra {tbl})"
     return f"(SMnew {tbl} {H.coq_bool(kind == 'new')})"
 
 
@@ -250,14 +266,17 @@ def coq_dtable(obj, kind, U) -> str:
     object (raw value or decoded), abstracted; or the error class of hashing it"""
     rows = {}
     for it in item_dicts(obj):
-        if "data" not in it:
+        if kind == "extra":   # keyed by the item's own entries
+            v = {k: x for k, x in it.items() if k != "children"}
+        elif "data" not in it:
             continue
-        v = it["data"]
+        else:
+            v = it["data"]
         k = jv_key(v)
         if k in rows:
             continue
         try:
-            o = v if kind == "none" else dec(payload(kind, v), U)
+            o = decode_item(kind, it, U)
             rows[k] = f"({jv_coq(v)}, dok {coq_info_data(o, U)})"
         except Exception as e:  # noqa: BLE001
             rows[k] = f"({jv_coq(v)}, derr {H.err_class(e)})"
@@ -305,16 +324,16 @@ class Prop:
     rule = ("plain trees: every ordered forest with <= 3 nodes x every labeling over 2 strings x data_id in {default, 0, '', 'k', "
             "hash(data)} that the tree accepts (quick: 3-node forests with {default, 0} only); every forest with <= N nodes (N=5 "
             "quick, 6 thorough) x 8 labeling patterns (distinct strings; strings JSON must escape; unhashable dicts/dataclasses under explicit ids; clones in different parents; explicit/falsy/default-valued ids; "
-            "value-equal objects, tuples, ints, dataclasses; identity-hashed objects; '7' next to 7) x the 5 serialisation mappers (none / "
-            "set data in place / wrap / new dict keeping or dropping data_id) with the inverse deserialisation mapper (at N nodes: 1 (quick) or 2 "
-            "of the 5 mappers per tree); trees under a calc_data_id hook; typed trees; emptied trees (clear, remove of the last top "
+            "value-equal objects, tuples, ints, dataclasses; identity-hashed objects; '7' next to 7) x the 6 serialisation mappers (none / "
+            "set data in place / wrap / new dict keeping or dropping data_id / extra entry read back by the decoder) with the inverse deserialisation mapper (at N nodes: 1 (quick) or 2 "
+            "of the 6 mappers per tree); trees under a calc_data_id hook; typed trees; emptied trees (clear, remove of the last top "
             "node); seeded random trees (5..18 nodes quick, 5..30 thorough); 16 hand-written and malformed dict lists; Node.from_dict "
             "into every node of every forest <= 3 (thorough 4) nodes x 3 calc_data_id hooks x 6 item lists.  Every dump goes through "
             "json.dumps/json.loads before from_dict.  A case is one tree (or one dict list); distinct = distinct desc; non-trivial = >= 3 nodes")
     exhaustive_note = ("all shapes <= 3 nodes x all labelings (2 strings x 5 data_id choices; quick: 2 choices at 3 nodes); "
                        "all shapes <= N nodes x 8 patterns x mappers (N=5 quick, 6 thorough)")
     assumptions = [
-        "serialisation mappers are functions of the node's data object/ids and the dict passed in; deserialisation mappers read only item['data'] and do not mutate the item",
+        "serialisation mappers are functions of the node's data object/ids and the dict passed in; deserialisation mappers are functions of the item dict (any entry) and do not mutate it",
         "the mapper pair is inverse: deser(ser(x)) == x (hence equal hash) – hypothesis of the round-trip theorem, not an axiom",
         "str(data) == f'{data}' (node.name) for the data objects used",
         "hash() never returns -1 (CPython): the model encodes 'hash(data) raises TypeError' as i_hash = -1",
@@ -385,9 +404,9 @@ class Prop:
                     if n <= (4 if tier == "quick" else 5):
                         kinds = SM_KINDS
                     elif tier == "quick":
-                        kinds = [SM_KINDS[(pi + si) % 5]]
+                        kinds = [SM_KINDS[(pi + si) % 6]]
                     else:
-                        kinds = [SM_KINDS[(pi + si) % 4 + 1], "none"]
+                        kinds = [SM_KINDS[(pi + si) % 5 + 1], "none"]
                     for sm in kinds:
                         d = dict(univ=univ, nodes=nodes, sm=sm)
                         if ok(d):
@@ -646,7 +665,7 @@ class Prop:
     # ------------------------------------------------------------------
     @staticmethod
     def expected_data(kind, n, U):
-        if kind == "none":
+        if kind in ("none", "extra"):
             return str(n._data)
         if kind == "wrap":
             return [str(n._data), enc(n._data, U)]
@@ -669,6 +688,8 @@ class Prop:
                 keys = {"data"}
                 if kind in ("new", "newdrop"):
                     keys.add("x")
+                if kind == "extra":
+                    keys.add("t")
                 if custom and kind != "newdrop":
                     keys.add("data_id")
                 if n._children:
@@ -708,7 +729,7 @@ class Prop:
 
         # (b) round trip
         strings_only = all(isinstance(n._data, str) for n in B.all_nodes(root))
-        hyp = (kind == "none" and strings_only) or kind in ("set", "wrap", "new")
+        hyp = (kind == "none" and strings_only) or kind in ("set", "wrap", "new", "extra")
 
         def first_refusal(dl):
             """what from_dict has to refuse first, items taken in pre-order: 7 = an item without data_id whose data is
@@ -718,8 +739,7 @@ class Prop:
                 if d.get("data_id") is not None:
                     e = d["data_id"]
                 else:
-                    o = d["data"] if kind == "none" else dec(payload(kind, d["data"]), U)
-                    e = safe_hash(o)
+                    e = safe_hash(decode_item(kind, d, U))
                     if e == -1:
                         return 7
                 if any(e == x and type(e) is type(x) for x in ids):
